@@ -1,4 +1,6 @@
 import IgrisModel.C02.Lemmas
+import IgrisModel.C02.Bisect
+import IgrisModel.C02.Flat
 /-!
   C02 — property theorems.
 
@@ -20,17 +22,11 @@ def Op.regs : Op → List Nat
   | .copyCtor d s | .moveCtor d s | .copyAssign d s | .moveAssign d s | .rangeCtor d s _ _
   | .eq d s | .ne d s | .lt d s => [d, s]
 
-/-- insert_sorted is the one member function not covered by the history theorems (std::upper_bound is
-    only run against the model, not proved) -/
-def Op.covered : Op → Bool
-  | .insertSorted _ _ => false
-  | _ => true
-
 /-- ONE OPERATION.  If std::vector accepts the operation in the abstract state `f` (`specStep` is
     defined), the igris code executes it without a fault, returns what std::vector returns, and the new
     state represents std::vector's new contents; the ledger stays balanced. -/
 theorem step_refines (portable : Bool) {R : Nat} {s : St} {f : Nat → List Val} (hI : SInv R s f) (op : Op)
-    (hR : ∀ r ∈ op.regs, r < R) (hc : op.covered = true)
+    (hR : ∀ r ∈ op.regs, r < R)
     {f' : Nat → List Val} {ret : Ret} (hs : specStep f op = some (f', ret)) :
     ∃ s', step portable s op = some (s', ret) ∧ SInv R s' f' := by
   cases op with
@@ -64,7 +60,14 @@ theorem step_refines (portable : Bool) {R : Nat} {s : St} {f : Nat → List Val}
       obtain ⟨v', l', h1, g⟩ := insertRange_good (hI.rep r) hp hy s.led
       exact ⟨_, by simp [step, h1], hI.set (hR r (by simp [Op.regs])) g⟩
     · cases hs
-  | insertSorted r x => simp [Op.covered] at hc
+  | insertSorted r x =>
+    -- std::upper_bound = the libstdc++ bisection, equal to `ubSpec` on the sorted contents (Bisect.lean)
+    simp only [specStep] at hs
+    split at hs
+    · rename_i hp; cases hs
+      obtain ⟨v', l', h1, g⟩ := insertSorted_good (hI.rep r) hp x s.led
+      exact ⟨_, by simp [step, h1], hI.set (hR r (by simp [Op.regs])) g⟩
+    · cases hs
   | erase r a b =>
     simp only [specStep] at hs
     split at hs
@@ -266,7 +269,7 @@ def runOut (portable : Bool) : St → List Op → Option (St × List Ret)
     | some (s', r) => (runOut portable s' ops).map fun (t, rs) => (t, r :: rs)
 
 theorem run_refines_from (portable : Bool) {R : Nat} (ops : List Op) {s : St} {f : Nat → List Val} (hI : SInv R s f)
-    (hR : ∀ op ∈ ops, ∀ r ∈ op.regs, r < R) (hc : ∀ op ∈ ops, op.covered = true)
+    (hR : ∀ op ∈ ops, ∀ r ∈ op.regs, r < R)
     {f' : Nat → List Val} {rets : List Ret} (hs : runSpec f ops = some (f', rets)) :
     ∃ s', runOut portable s ops = some (s', rets) ∧ SInv R s' f' := by
   induction ops generalizing s f rets with
@@ -281,29 +284,31 @@ theorem run_refines_from (portable : Bool) {R : Nat} (ops : List Op) {s : St} {f
       simp only [Option.map_eq_some_iff] at hs
       obtain ⟨⟨g, rs⟩, h2, he⟩ := hs
       cases he
-      obtain ⟨s1, hs1, hI1⟩ := step_refines portable hI op (hR op (by simp)) (hc op (by simp)) h1
-      obtain ⟨s2, hs2, hI2⟩ := ih hI1 (fun o ho => hR o (by simp [ho])) (fun o ho => hc o (by simp [ho])) h2
+      obtain ⟨s1, hs1, hI1⟩ := step_refines portable hI op (hR op (by simp)) h1
+      obtain ⟨s2, hs2, hI2⟩ := ih hI1 (fun o ho => hR o (by simp [ho])) h2
       exact ⟨s2, by simp [runOut, hs1, hs2], hI2⟩
 
 /-- REFINEMENT (clause 1 of C02).  Any history of operations that std::vector accepts — push/emplace
     (also with an argument that refers to an element of the same vector), insert/emplace at any position,
     range insert of own or foreign elements, erase, truncation, pop, resize, reserve, clear, invalidate,
     copy/move construction and assignment (incl. self assignment), the range / size / initializer-list
-    constructors, ==, !=, <, at, [], front/back, iteration — on any number of vector objects runs on the
+    constructors, ==, !=, <, at, [], front/back, iteration, insert_sorted on sorted contents (the
+    std::upper_bound bisection is part of the model and proved equal to `ubSpec`) — on any number of vector objects runs on the
     igris code (both copies) without a fault, returns exactly what std::vector returns (positions,
     comparison results = list equality / lexicographic order, at() throwing exactly when std's does) and
     leaves every vector with std::vector's size and element sequence. -/
 theorem vector_refines_list (portable : Bool) (R : Nat) (ops : List Op)
-    (hR : ∀ op ∈ ops, ∀ r ∈ op.regs, r < R) (hc : ∀ op ∈ ops, op.covered = true)
+    (hR : ∀ op ∈ ops, ∀ r ∈ op.regs, r < R)
     {f' : Nat → List Val} {rets : List Ret} (hs : runSpec (fun _ => []) ops = some (f', rets)) :
     ∃ s', runOut portable St.init ops = some (s', rets) ∧ ∀ r, Rep (s'.regs r) (f' r) := by
-  obtain ⟨s', h1, h2⟩ := run_refines_from portable ops (SInv.init R) hR hc hs
+  obtain ⟨s', h1, h2⟩ := run_refines_from portable ops (SInv.init R) hR hs
   exact ⟨s', h1, h2.rep⟩
 
 /-- the hypotheses are satisfiable: a history with an aliasing push, an aliasing insert, copy
-    assignment and comparisons is accepted by std::vector -/
+    assignment, comparisons and insert_sorted (front, back, between equal elements) is accepted by std::vector -/
 example : ∃ f rets, runSpec (fun _ => []) [.emplaceBack 0 (.val 5), .emplaceBack 0 (.own 0), .emplace 0 0 (.own 1),
-    .copyAssign 1 0, .eq 0 1, .lt 0 1, .erase 0 0 1, .popBack 1] = some (f, rets) := ⟨_, _, rfl⟩
+    .copyAssign 1 0, .eq 0 1, .lt 0 1, .erase 0 0 1, .popBack 1, .insertSorted 1 3, .insertSorted 1 9, .insertSorted 1 5]
+    = some (f, rets) := ⟨_, _, rfl⟩
 
 /-- size ≤ capacity and capacity = size of the allocated block, in every reachable state -/
 theorem size_le_capacity {v : Vec} {xs : List Val} (h : Rep v xs) :
@@ -320,11 +325,11 @@ theorem size_le_capacity {v : Vec} {xs : List Val} (h : Rep v xs) :
     constructions = destructions, allocations = deallocations.  Since construction needs an unconstructed
     slot and destruction a constructed one, no object is destroyed twice. -/
 theorem vector_lifetime (portable : Bool) (R : Nat) (ops : List Op)
-    (hR : ∀ op ∈ ops, ∀ r ∈ op.regs, r < R) (hc : ∀ op ∈ ops, op.covered = true)
+    (hR : ∀ op ∈ ops, ∀ r ∈ op.regs, r < R)
     {f' : Nat → List Val} {rets : List Ret} (hs : runSpec (fun _ => []) ops = some (f', rets)) :
     ∃ s' s'', runOut portable St.init ops = some (s', rets) ∧ destroyAll s' R = some s'' ∧
       s''.led.made = s''.led.dtor ∧ s''.led.alloc = s''.led.dealloc ∧ ∀ r, r < R → s''.regs r = Vec.empty := by
-  obtain ⟨s', h1, hI⟩ := run_refines_from portable ops (SInv.init R) hR hc hs
+  obtain ⟨s', h1, hI⟩ := run_refines_from portable ops (SInv.init R) hR hs
   obtain ⟨s'', h2, hI2, hE⟩ := destroyAll_ok hI R (Nat.le_refl _)
   refine ⟨s', s'', h1, h2, ?_, ?_, hE⟩
   · have hn := hI2.net
@@ -336,12 +341,12 @@ theorem vector_lifetime (portable : Bool) (R : Nat) (ops : List Op)
 
 /-- in every reachable state the ledger says: objects alive = elements held, blocks = vectors with storage -/
 theorem ledger_balance (portable : Bool) (R : Nat) (ops : List Op)
-    (hR : ∀ op ∈ ops, ∀ r ∈ op.regs, r < R) (hc : ∀ op ∈ ops, op.covered = true)
+    (hR : ∀ op ∈ ops, ∀ r ∈ op.regs, r < R)
     {f' : Nat → List Val} {rets : List Ret} (hs : runSpec (fun _ => []) ops = some (f', rets)) :
     ∃ s', runOut portable St.init ops = some (s', rets) ∧
       s'.led.net = total (fun r => ((f' r).length : Int)) R ∧
       s'.led.blocks = total (fun r => held (s'.regs r)) R := by
-  obtain ⟨s', h1, hI⟩ := run_refines_from portable ops (SInv.init R) hR hc hs
+  obtain ⟨s', h1, hI⟩ := run_refines_from portable ops (SInv.init R) hR hs
   exact ⟨s', h1, hI.net, hI.blk⟩
 
 /-! ### findings on the model / spec level -/
@@ -364,14 +369,259 @@ theorem construct_over_object_faults : construct ((Buf.fresh 2).put 0 .moved) 0 
 theorem dealloc_with_object_faults : deallocOk ((Buf.fresh 1).put 0 (.live 3)) 1 = false := by
   simp [deallocOk, Buf.allRaw, Buf.fresh, Buf.put]
 
-/-! ### flat_map (only the repaired constructor is stated here; the lookup operations are tied to
-    std::map by the correspondence run, see notes/C02.md) -/
+/-! ### witnesses for the repaired defects
+
+  For every `fix:` commit of branch fix-C02 that concerns igris::vector: a history that std::vector accepts
+  (`runSpec` is defined) and the repaired code runs to the end, destructors included (`runFixed`), on which
+  the code with the ORIGINAL body of that one member function put back (`runOrig`, bodies `…Orig` in
+  Model.lean) faults in the slot model.  Kernel evaluation of the model (`decide`). -/
+
+/-- what a witness states -/
+def OrigFaults (o : Orig) (ops : List Op) : Prop :=
+  (runSpec (fun _ => []) ops).isSome = true ∧ (runFixed St.init ops).isSome = true ∧ (runOrig o St.init ops).isNone = true
+
+instance (o : Orig) (ops : List Op) : Decidable (OrigFaults o ops) := by unfold OrigFaults; infer_instance
+
+/-- 37ab9b2 (copy assignment allocated `m_size` = 0 slots and constructed `other.size()` elements behind the
+    block): `a = {4,5}; b = a;` constructs outside the allocation -/
+theorem copy_assign_orig_witness :
+    OrigFaults .copyAssign [.emplaceBack 0 (.val 4), .emplaceBack 0 (.val 5), .copyAssign 1 0] := by decide
+
+/-- db40834 (erase(first,last) destroyed the erased range, then move-assigned the tail into the destroyed
+    slots): `{1,2,3,4}.erase(begin()+1, begin()+2)` assigns to a slot that holds no object -/
+theorem erase_range_orig_witness :
+    OrigFaults .eraseRange [.listCtor 0 [1, 2, 3, 4], .erase 0 1 2] := by decide
+
+/-- 5125225 (erase(newend) only lowered m_size): `{1}.erase(begin())` then the destructor frees a block that
+    still holds a constructed element (the leak) … -/
+theorem erase_newend_orig_witness :
+    OrigFaults .eraseTo [.emplaceBack 0 (.val 1), .eraseTo 0 0] := by decide
+
+/-- … and a following push_back constructs over the object that was never destroyed -/
+theorem erase_newend_orig_witness_push :
+    OrigFaults .eraseTo [.reserve 0 2, .emplaceBack 0 (.val 1), .eraseTo 0 0, .emplaceBack 0 (.val 2)] := by decide
+
+/-- ebcd133 (push_back took the reference, replaced the buffer, then copy-constructed from the reference):
+    `v.reserve(1); v.push_back(3); v.push_back(v[0]);` reads the freed block -/
+theorem push_back_alias_orig_witness :
+    OrigFaults .pushBack [.reserve 0 1, .emplaceBack 0 (.val 3), .emplaceBack 0 (.own 0)] := by decide
+
+/-- f1b29cb (insert: move_backward assigned into the unconstructed slot at the old end): `{7}.insert(begin(), 8)` -/
+theorem insert_orig_witness :
+    OrigFaults .insert [.reserve 0 2, .emplaceBack 0 (.val 7), .emplace 0 0 (.val 8)] := by decide
+
+/-- f1b29cb, insert at end(): `*first = value` on the unconstructed slot — `v.insert(v.begin(), 7)` on an empty vector -/
+theorem insert_end_orig_witness : OrigFaults .insert [.emplace 0 0 (.val 7)] := by decide
+
+/-- f1b29cb (emplace: the same move_backward, then placement-new over the moved-from object):
+    `{4}.emplace(begin(), 7)` -/
+theorem emplace_orig_witness :
+    OrigFaults .emplace [.reserve 0 2, .emplaceBack 0 (.val 4), .emplace 0 0 (.val 7)] := by decide
+
+/-- a60ae02 (insert(pos, first, last): move_backward and std::copy assigned into the unconstructed slots
+    behind the old end): `{1}.insert(begin(), a, a + 2)` with room for three -/
+theorem insert_range_orig_witness :
+    OrigFaults .insertRange [.reserve 0 4, .emplaceBack 0 (.val 1), .insertRange 0 0 (.ext [7, 8])] := by decide
+
+/-- a60ae02, a foreign range after a reallocation was re-based on the new buffer (read of unrelated memory) -/
+theorem insert_range_realloc_orig_witness :
+    OrigFaults .insertRange [.reserve 0 1, .insertRange 0 0 (.ext [7, 8, 9, 6])] := by decide
+
+/-- 7c36ffc (const at() asserted before the range test): `{1}.at(1)` aborts where std::vector throws -/
+theorem const_at_orig_witness : OrigFaults .constAt [.listCtor 0 [1], .at 0 1, .at 0 0] := by decide
+
+/-- the original bodies are not faults by construction: each runs the paths that were right (erase of a
+    tail range, copy assignment from an empty vector, truncation to the current size, push_back of a value,
+    emplace at end(), an empty range insert, at() inside the range); the original insert(pos, value)
+    alone has no such path — it assigned to an unconstructed slot on every call -/
+example :
+    (runOrig .eraseRange St.init [.listCtor 0 [1, 2, 3], .erase 0 1 3]).isSome = true ∧
+    (runOrig .copyAssign St.init [.emplaceBack 1 (.val 4), .copyAssign 1 0]).isSome = true ∧
+    (runOrig .eraseTo St.init [.emplaceBack 0 (.val 1), .eraseTo 0 1]).isSome = true ∧
+    (runOrig .pushBack St.init [.emplaceBack 0 (.val 3), .emplaceBack 0 (.val 4)]).isSome = true ∧
+    (runOrig .emplace St.init [.emplace 0 0 (.val 7), .emplace 0 1 (.val 8)]).isSome = true ∧
+    (runOrig .insertRange St.init [.emplaceBack 0 (.val 1), .insertRange 0 0 (.ext [])]).isSome = true ∧
+    (runOrig .constAt St.init [.listCtor 0 [1], .at 0 0]).isSome = true := by decide
+
+/-! ### the bisection routines (std::upper_bound / std::lower_bound as written in libstdc++) -/
+
+/-- vector::insert_sorted: over the block of a vector holding the sorted sequence `xs`, the modelled
+    `std::upper_bound` loop reads only constructed elements (no fault) and returns the first index whose
+    element is greater than the item (`ubSpec`, = `xs.length` if there is none) -/
+theorem upper_bound_is_spec {v : Vec} {xs : List Val} (h : Rep v xs) (hs : xs.Pairwise (· ≤ ·)) (x : Val) {b : Buf}
+    (hb : v.data = some b) :
+    upperBound b x v.size 0 v.size = some (ubSpec x xs) ∧ ubSpec x xs ≤ xs.length ∧
+    (∀ i (hi : i < xs.length), i < ubSpec x xs → ¬ x < xs[i]) ∧
+    (∀ hi : ubSpec x xs < xs.length, x < xs[ubSpec x xs]) :=
+  ⟨upperBound_sorted h hs x hb, ubSpec_le x xs, fun _ hi hlt => not_lt_of_lt_ubSpec hlt hi, fun hi => lt_at_ubSpec hi⟩
+
+example : ∃ v xs b, Rep v xs ∧ xs.Pairwise (· ≤ ·) ∧ v.data = some b ∧ xs = [1, 3, 3, 7] :=
+  ⟨vecOf 4 [1, 3, 3, 7], _, _, Rep.mk (by decide), by decide, rfl, rfl⟩
+
+/-- flat_set::insert / count: on a storage that is strictly increasing under the comparator `lt` (any
+    transitive `lt`) the modelled `std::lower_bound` loop returns the first index whose element is not less
+    than the key (`lbSpec`) -/
+theorem lower_bound_is_spec (lt : Int → Int → Bool) (ht : LtTrans lt) (xs : List Int) (k : Int) (hs : Sorted lt xs) :
+    lowerBound lt xs k xs.length 0 xs.length = lbSpec lt k xs ∧ lbSpec lt k xs ≤ xs.length ∧
+    (∀ i (hi : i < xs.length), i < lbSpec lt k xs → lt xs[i] k = true) ∧
+    (∀ hi : lbSpec lt k xs < xs.length, lt xs[lbSpec lt k xs] k = false) :=
+  ⟨lowerBound_sorted lt ht xs k hs, lbSpec_le lt k xs, fun _ hi hlt => lt_of_lt_lbSpec hlt hi, fun hi => not_lt_at_lbSpec hi⟩
+
+example : LtTrans ltInt ∧ Sorted ltInt [1, 3, 4, 7] ∧ lowerBound ltInt [1, 3, 4, 7] 3 4 0 4 = 1 ∧
+    lowerBound ltInt [1, 3, 4, 7] 8 4 0 4 = 4 := ⟨strictWeak_ltInt.trans, by decide, by decide, by decide⟩
+
+/-- flat_map::insert: on a storage strictly increasing by key the modelled `std::upper_bound` loop returns
+    `ubSpecBy` of the keys (first index whose key is greater); on any storage (operator[] and emplace append
+    at the end, so it need not be sorted) the position stays inside `[0, size]` -/
+theorem map_upper_bound_is_spec (lt : Int → Int → Bool) (m : List (Int × Int)) (k : Int) :
+    mapUpper lt m k m.length 0 m.length ≤ m.length ∧
+    (LtTrans lt → Sorted lt (keysOf m) → mapUpper lt m k m.length 0 m.length = ubSpecBy lt k (keysOf m)) :=
+  ⟨mapUpper_le lt m k, fun ht hs => mapUpper_sorted lt ht m k hs⟩
+
+example : Sorted ltInt (keysOf [(1, 10), (4, 40)]) := by decide
+
+/-! ### flat_map against std::map, flat_set against std::set — for every comparator
+
+  `lt` is the `Compare` object of the container and of std::map / std::set; the theorems hold for every
+  STRICT WEAK ORDER (`StrictWeak lt`: irreflexive, transitive, incomparability transitive — what the standard
+  requires; a linear order is not needed: "smaller last digit" makes 11 and 21 one key).  Two keys are the
+  same key when neither is before the other.  std::map = a function from keys to the stored entry with the
+  same key (`mapSpecNext` / `mapRetOk` in Flat.lean), std::set = a function from keys to the stored element
+  with the same key (`setSpecNext` / `setRetOk`).  The driver / harness instantiate std::less<int>,
+  std::greater<int>, "smaller last digit" and std::greater<std::string> on the decimal text. -/
+
+/-- the hypothesis `StrictWeak lt` is satisfiable, also by an order that is not linear -/
+example : StrictWeak ltInt ∧ StrictWeak (fun a b => decide (b < a)) ∧ StrictWeak (fun a b => decide (a.tmod 10 < b.tmod 10)) :=
+  ⟨strictWeak_ltInt, strictWeak_greater, strictWeak_lastDigit⟩
+
+/-- ONE OPERATION of flat_map.  If no two stored keys are the same key and `f` maps every key to the stored
+    entry with the same key, then the operation answers what std::map answers in state `f` (operator[]
+    default-inserts 0 and returns the mapped value, `m[k] = v` overwrites the mapped value, insert/emplace do
+    NOT overwrite and report the entry that is in the map afterwards, find = the mapped value or end(),
+    count ∈ {0,1}, at throws iff the key is absent, size = number of distinct keys) and the new storage again
+    holds every key once and stores std::map's new state. -/
+theorem flat_map_step_refines {lt : Int → Int → Bool} (h : StrictWeak lt) {m : FMap} {f : Int → Option (Int × Int)}
+    (hm : MRep lt m f) (op : MOp) :
+    mapRetOk lt f op (m.step lt op).2 ∧ MRep lt (m.step lt op).1 (mapSpecNext lt f op) := mapStep_refines h hm op
+
+example : MRep ltInt {} (fun _ => none) := MRep.empty
+
+/-- REFINEMENT (clause 3 of C02, flat_map).  For every strict weak order, every initializer list `init`
+    (duplicates allowed; `[]` = the default-constructed map) and every history of operator[] (read and
+    write), insert, emplace, find, count, at, size, clear and re-initialisation, the answers of flat_map are
+    the answers of std::map with the same comparator constructed from the same list, and the final storage
+    holds every key once with std::map's entries. -/
+theorem flat_map_refines {lt : Int → Int → Bool} (h : StrictWeak lt) (init : List (Int × Int)) (ops : List MOp) :
+    MapHist lt (fun k => entry lt k init) ops ((FMap.ofList lt init {}).run lt ops).2 ∧
+    MRep lt ((FMap.ofList lt init {}).run lt ops).1 (mapSpecRun lt (fun k => entry lt k init) ops) :=
+  mapRun_refines h ((ofList_rep h init MRep.empty).ext (by funext k; simp)) ops
+
+/-- the same from any state that satisfies the invariant -/
+theorem flat_map_refines_from {lt : Int → Int → Bool} (h : StrictWeak lt) {m : FMap} {f : Int → Option (Int × Int)}
+    (hm : MRep lt m f) (ops : List MOp) :
+    MapHist lt f ops (m.run lt ops).2 ∧ MRep lt (m.run lt ops).1 (mapSpecRun lt f ops) := mapRun_refines h hm ops
+
+/-- what the model answers on a concrete history (the answers `flat_map_refines` speaks about) -/
+example : ((FMap.ofList ltInt [(1, 10), (1, 20), (3, 30)] {}).run ltInt
+      [.size, .insert 1 99, .index 2, .assign 2 7, .emplace 2 8, .emplace 0 5, .count 1, .at 4, .find 2, .size]).2 =
+    [.nat 2, .kv 1 10, .val 0, .unit, .flag false 7, .flag true 5, .nat 1, .throw, .opt (some 7), .nat 4] := by decide
+
+/-- … and with the comparator "smaller last digit": 11 and 21 are one key, the stored key stays 11 -/
+example : ((FMap.ofList (fun a b => decide (a.tmod 10 < b.tmod 10)) [(11, 1), (21, 2), (5, 3)] {}).run
+      (fun a b => decide (a.tmod 10 < b.tmod 10))
+      [.size, .insert 31 9, .assign 41 7, .find 1, .count 21, .emplace 15 0, .at 2, .insert 2 4, .size]).2 =
+    [.nat 2, .kv 11 1, .unit, .opt (some 7), .nat 1, .flag false 3, .throw, .kv 2 4, .nat 3] := by decide
+
+/-- INVARIANT: in every reachable state no two stored keys are the same key, hence `count(k) ≤ 1` and
+    `size()` = number of distinct keys -/
+theorem flat_map_keys_unique {lt : Int → Int → Bool} (h : StrictWeak lt) (init : List (Int × Int)) (ops : List MOp) (k : Int) :
+    Distinct lt (keysOf ((FMap.ofList lt init {}).run lt ops).1.st) ∧
+    ((FMap.ofList lt init {}).run lt ops).1.count lt k ≤ 1 := by
+  have hm := (flat_map_refines h init ops).2
+  refine ⟨hm.uniq, ?_⟩
+  rw [FMap.count, count_eq h k _ hm.uniq]
+  split <;> omega
+
+/-- flat_map::insert keeps a storage that is strictly increasing by key strictly increasing (a map filled by
+    `insert` alone therefore iterates in std::map's order; operator[] / emplace append at the end and do
+    not — iteration order is not part of C02) -/
+theorem flat_map_insert_keeps_sorted {lt : Int → Int → Bool} (h : StrictWeak lt) (m : FMap) (k v : Int)
+    (hs : Sorted lt (keysOf m.st)) : Sorted lt (keysOf (m.insert lt k v).1.st) := by
+  simp only [FMap.insert, findEntry_eq]
+  cases hf : entry lt k m.st with
+  | some w => exact hs
+  | none =>
+    simp only [keysOf_listInsert]
+    have e := mapUpper_sorted lt h.ltTrans m.st k hs
+    simp only [keysOf] at e ⊢
+    rw [e]
+    refine sorted_insert_ub h k _ hs ?_
+    intro a ha
+    obtain ⟨p, hp, rfl⟩ := List.mem_map.mp ha
+    exact (lookupBy_none_iff (·.1) k m.st).mp hf p hp
+
+example : Sorted ltInt (keysOf (FMap.ofList ltInt [(1, 10), (4, 40)] {}).st) := by decide
 
 /-- before the fix `flat_map{{1,10},{1,20}}.count(1)` was 2 -/
-theorem flat_map_init_dup_orig_witness : (FMap.ofListOrig [(1, 10), (1, 20)]).count 1 = 2 := by decide
+theorem flat_map_init_dup_orig_witness : (FMap.ofListOrig [(1, 10), (1, 20)]).count ltInt 1 = 2 := by decide
 
 /-- after the fix the first entry of a key wins, like std::map -/
 theorem flat_map_init_dup_fixed :
-    (FMap.ofList [(1, 10), (1, 20)] {}).count 1 = 1 ∧ (FMap.ofList [(1, 10), (1, 20)] {}).find 1 = some 10 := by decide
+    (FMap.ofList ltInt [(1, 10), (1, 20)] {}).count ltInt 1 = 1 ∧ (FMap.ofList ltInt [(1, 10), (1, 20)] {}).find ltInt 1 = some 10 := by
+  decide
+
+/-- 6ba4c7a (flat_map ignored its Compare parameter: lookup with ==, insert ordered with <, i.e. the model
+    run with std::less whatever the comparator): `flat_map<int,int,ByLastDigit>{{0,10},{10,30}}` kept both
+    entries and did not find 20; with the fix the answers are std::map's (`flat_map_refines`) -/
+theorem flat_map_ignores_compare_orig_witness :
+    ((FMap.ofList ltInt [(0, 10), (10, 30)] {}).run ltInt [.find 20, .count 10, .size]).2 =
+      [.opt none, .nat 1, .nat 2] ∧
+    ((FMap.ofList (fun a b => decide (a.tmod 10 < b.tmod 10)) [(0, 10), (10, 30)] {}).run
+      (fun a b => decide (a.tmod 10 < b.tmod 10)) [.find 20, .count 10, .size]).2 =
+      [.opt (some 10), .nat 1, .nat 1] := by decide
+
+/-- ONE OPERATION of flat_set.  If the storage is strictly increasing under the comparator and `S` maps every
+    key to the stored element with the same key, the operation answers what std::set answers (count =
+    presence of the key, iteration = the stored elements in increasing order, size = their number) and the
+    new storage is again strictly increasing and represents std::set's new state. -/
+theorem flat_set_step_refines {lt : Int → Int → Bool} (h : StrictWeak lt) {s : FSet} {S : Int → Option Int}
+    (hr : SRep lt s S) (op : SOp) :
+    setRetOk lt S op (s.step lt op).2 ∧ SRep lt (s.step lt op).1 (setSpecNext lt S op) := setStep_refines h hr op
+
+example : SRep ltInt {} (fun _ => none) := SRep.empty
+
+/-- REFINEMENT (clause 3 of C02, flat_set).  For every strict weak order and every history of insert, count,
+    size, clear and iteration from the empty set the answers of flat_set are the answers of std::set with the
+    same comparator, and the storage is strictly increasing (invariant) with exactly std::set's elements. -/
+theorem flat_set_refines {lt : Int → Int → Bool} (h : StrictWeak lt) (ops : List SOp) :
+    SetHist lt (fun _ => none) ops (FSet.run lt {} ops).2 ∧
+    SRep lt (FSet.run lt {} ops).1 (setSpecRun lt (fun _ => none) ops) := setRun_refines h SRep.empty ops
+
+theorem flat_set_refines_from {lt : Int → Int → Bool} (h : StrictWeak lt) {s : FSet} {S : Int → Option Int}
+    (hr : SRep lt s S) (ops : List SOp) :
+    SetHist lt S ops (s.run lt ops).2 ∧ SRep lt (s.run lt ops).1 (setSpecRun lt S ops) := setRun_refines h hr ops
+
+example : (FSet.run ltInt {} [.insert 5, .insert 2, .insert 5, .insert 9, .count 5, .count 4, .size, .iter, .clear, .size]).2 =
+    [.unit, .unit, .unit, .unit, .nat 1, .nat 0, .nat 3, .keys [2, 5, 9], .unit, .nat 0] := by decide
+
+/-- std::greater<int>: `insert 5, insert 1, count(1)` is 1 (a `count` that bisects with operator< instead of
+    the comparator — the seeded change C02-flat-set-count-ignores-comp — answers 0 here) -/
+example : (FSet.run (fun a b => decide (b < a)) {} [.insert 5, .insert 1, .count 1, .insert 7, .iter]).2 =
+    [.unit, .unit, .nat 1, .unit, .keys [7, 5, 1]] := by decide
+
+/-- df076d8 (`flat_set(const Compare &comp)` dropped `comp`: the set ordered by a default-constructed
+    comparator = the model run with the default direction): with the stateful comparator `Dir`,
+    `flat_set<int, Dir> s(Dir(true)); insert 1; insert 2` iterated 1, 2; std::set (and the fixed code, by
+    `flat_set_refines` with the descending order) iterates 2, 1 -/
+theorem flat_set_comparator_object_orig_witness :
+    (FSet.run ltInt {} [.insert 1, .insert 2, .iter]).2 = [.unit, .unit, .keys [1, 2]] ∧
+    (FSet.run (fun a b => decide (b < a)) {} [.insert 1, .insert 2, .iter]).2 = [.unit, .unit, .keys [2, 1]] := by decide
+
+/-- "the stored elements in increasing order" is a function of the set: two strictly increasing lists with
+    the same elements are equal (so `setRetOk` fixes the answer of `iter` and `size` uniquely) -/
+theorem flat_set_enumeration_unique {lt : Int → Int → Bool} (h : StrictWeak lt) (a b : List Int)
+    (ha : Sorted lt a) (hb : Sorted lt b) (hab : ∀ j, j ∈ a ↔ j ∈ b) : a = b := sorted_enum_unique h a b ha hb hab
+
+example : Sorted ltInt [2, 5, 9] := by decide
 
 end Igris.C02
